@@ -14,7 +14,10 @@
              next round: cexp := last + 1; cur := cur div 2; round := round + 1
    The arrival that returns TRUE runs the completion function, then publishes phase := old + 2.
    Participants call arrive_and_wait() Phases times; wait() polls `phase # old`.
-   Variant "publish_before_completion" stores the phase before running the completion.        *)
+   Variant "publish_before_completion" stores the phase before running the completion.
+   Variant "claim_by_exchange" (seeded change C09-3): the second arrival at a half-full node claims it with an
+   unconditional exchange instead of the CAS half -> full; two arrivals that both saw `half` both go on to the
+   next round (the failed first CAS and the exchange are separate steps in this variant).            *)
 EXTENDS Naturals, Integers, FiniteSets
 CONSTANTS P, Phases, Variant
 VARIABLES t, phase, pc, old, cexp, cur, rnd, done, completions, arrivals, departed
@@ -53,9 +56,15 @@ Try(p) ==
                   THEN /\ t' = [t EXCEPT ![c][rnd[p]] = half]
                        /\ pc' = [pc EXCEPT ![p] = "wait"] /\ UNCHANGED <<cexp, cur, rnd, done>>
                   ELSE IF v = half
-                          THEN t' = [t EXCEPT ![c][rnd[p]] = full] /\ NextRound(p) /\ UNCHANGED done
+                          THEN IF Variant = "claim_by_exchange"
+                                  THEN /\ pc' = [pc EXCEPT ![p] = "exchange"] /\ cur' = [cur EXCEPT ![p] = c]
+                                       /\ UNCHANGED <<t, cexp, rnd, done>>
+                                  ELSE t' = [t EXCEPT ![c][rnd[p]] = full] /\ NextRound(p) /\ UNCHANGED done
                           ELSE UNCHANGED <<t, cexp, rnd, pc, done>> /\ cur' = [cur EXCEPT ![p] = c + 1]
     /\ UNCHANGED <<phase, old, completions, arrivals, departed>>
+Exchange(p) == /\ pc[p] = "exchange"
+               /\ t' = [t EXCEPT ![cur[p]][rnd[p]] = old[p] + 2] /\ NextRound(p)
+               /\ UNCHANGED <<phase, old, done, completions, arrivals, departed>>
 \* the completing arrival: completion function, then publish the new phase
 Complete(p) ==
     /\ pc[p] = "complete"
@@ -74,7 +83,7 @@ Depart(p) == /\ pc[p] = "wait" /\ phase # old[p]
              /\ pc' = [pc EXCEPT ![p] = "idle"] /\ done' = [done EXCEPT ![p] = @ + 1]
              /\ departed' = [departed EXCEPT ![old[p] \div 2] = @ + 1]
              /\ UNCHANGED <<t, phase, old, cexp, cur, rnd, completions, arrivals>>
-Next == \E p \in Proc : Begin(p) \/ RoundTop(p) \/ Try(p) \/ Complete(p) \/ Publish(p)
+Next == \E p \in Proc : Begin(p) \/ RoundTop(p) \/ Try(p) \/ Exchange(p) \/ Complete(p) \/ Publish(p)
                         \/ LateCompletion(p) \/ Depart(p)
 Spec == Init /\ [][Next]_vars /\ WF_vars(Next)
 
